@@ -156,6 +156,17 @@ def _real_find(m, t):
         i = m.full_text.find(t, i + 1)
     return -1
 
+_QN = {0x201c: '"', 0x201d: '"', 0x2018: "'", 0x2019: "'"}
+def _real_find_q(m, t):
+    """the model's find_quote: the same search on the text and target with typographic quotes made plain (one character for one)"""
+    ft, tt = m.full_text.translate(_QN), t.translate(_QN)
+    i = ft.find(tt)
+    while i != -1:
+        cov = [s for s in m.spans if s.run is not None and s.end > i and s.start < i + len(tt)]
+        if cov and not any(s.del_id for s in cov): return i
+        i = ft.find(tt, i + 1)
+    return -1
+
 def _loose(x):
     """what every approximate matcher stage preserves: the text with Markdown markers and heading prefixes dropped, typographic quotes
     made plain, [___] placeholders of any length equal and whitespace runs collapsed (coarser than each stage, so never a false alarm)"""
@@ -169,11 +180,14 @@ def engine_edits(b, edits, author='Tester'):
     from adeu.redline.engine import RedlineEngine
     from adeu.redline.mapper import DocumentMapper
     from adeu.models import DocumentEdit
-    rec = []
+    rec = []; qh = [0]
     orig = DocumentMapper.find_match_index
     def wrapped(self, target_text):
         r = orig(self, target_text)
-        if _real_find(self, target_text) == -1:
+        # the exact and the smart-quote stage are inside the model; only the answers of the later stages are recorded
+        ex = _real_find(self, target_text)
+        if ex == -1 and _real_find_q(self, target_text) != -1: qh[0] += 1
+        elif ex == -1:
             rec.append(None if r[0] == -1 else [r[0], r[1]])
             if r[0] != -1 and not (0 <= r[0] and r[0] + r[1] <= len(self.full_text)): rec.append('CONTRACT')
             # an approximate answer still denotes the target: the same text up to markers, quote style and whitespace
@@ -188,7 +202,7 @@ def engine_edits(b, edits, author='Tester'):
             if i is not None: de._match_start_index = i
             des.append(de)
         ap, sk = e.apply_edits(des)
-        return {'ap': ap, 'sk': sk, 'out': e.save_to_stream().getvalue(), 'oracle': rec, 'ts': e.timestamp, 'err': None}
+        return {'ap': ap, 'sk': sk, 'out': e.save_to_stream().getvalue(), 'oracle': rec, 'ts': e.timestamp, 'err': None, 'qhits': qh[0]}
     except Exception as ex:
         import traceback
         return {'err': '%s: %s' % (type(ex).__name__, ex), 'tb': traceback.format_exc()[-1500:], 'oracle': rec}
